@@ -63,7 +63,11 @@ pub fn generate(seed: u64, tier: Tier, check: &str) -> Scenario {
         thorough: tier.thorough(),
         small_blocks: r.chance(1, 3),
     };
-    gen_history(&mut r, check, seed, &hc)
+    let mut sc = gen_history(&mut r, check, seed, &hc);
+    // one run in eight drives the REAL transport/local.rs (tmpfs) behind the interceptor,
+    // including the zero-length files a killed local write leaves
+    sc.env.local_backend = r.chance(1, 8);
+    sc
 }
 
 fn run(seed: u64, tier: Tier, acc: &mut Acc) -> Vec<Found> {
@@ -93,7 +97,10 @@ pub fn run_history(sc: &Scenario, acc: &mut Acc, mode: Mode) -> Result<Vec<Viola
     let mut out: Vec<Violation> = Vec::new();
     let mut w = World::new(sc.env.clone(), sc.root_meta);
     acc.runs += 1;
-    *acc.backends.entry("mem".into()).or_default() += 1;
+    *acc.backends.entry(if sc.env.local_backend { "local_disk" } else { "mem" }.into()).or_default() += 1;
+    if sc.env.local_backend {
+        acc.hit("history_on_local_disk");
+    }
     let mut state_seq: Vec<u64> = Vec::new();
     let mut distinct_complete_snaps = false;
     let allow_empty = sc.steps.iter().any(|s| match s {
